@@ -363,7 +363,7 @@ func (p *Program) inlinableCallIn(info *types.Info, n ast.Node, stack []*FuncInf
 			return true
 		}
 		h := p.FuncOf(fn)
-		if h == nil || h.Decl.Body == nil || h.Pkg != p.Root {
+		if h == nil || h.Decl.Body == nil || (h.Pkg != p.Root && h.Pkg != stack[0].Pkg) {
 			return true
 		}
 		for _, s := range stack {
